@@ -115,11 +115,12 @@ def cases_for(ctx):
     epss = [0.1] if q else [0.1, 1e-3, 10.0]
     if not q:
         base += named("M2s", AL.M2s())
-        m3 = AL.M3d()
-        base += named("M3d", m3)[ctx.seed % 4::4]
     # (A) alphabet x rows x gamma x eps
-    for g, eps in itertools.product(gam, epss):
+    grid = list(itertools.product(gam, epss)) if q else [(g, e) for g in gam for e in (0.1, 1e-3)] + [(0.9, 10.0)]
+    for g, eps in grid:
         fam = base + named("Mtie(g=%g,eps=%g)" % (g, eps), AL.Mtie(g, eps))
+        if not q and eps == 0.1 and g in (0.5, 0.9):
+            fam = fam + named("M3d", AL.M3d())[ctx.seed % 16::16]
         for (name, m), (kind, test) in itertools.product(fam, ROWS):
             if kind == "savi":
                 add(name, m, kind, test, g, eps, mbs=1)
